@@ -366,11 +366,10 @@ def ob_e(ob):
 
 
 # ---- shared obligation: a reused Langevin driver equals a fresh one only if its thermostat coefficients are recomputed from the current molecule and settings at every initialisation ----
-from . import C12 as _C12_mod  # noqa: E402
-
-
-@obligation(PID, "f", title="[shared with C12.a] " + [e for e in __import__("engine.ob", fromlist=["REGISTRY"]).REGISTRY["C12"] if e[1] is _C12_mod.ob_a][0][3])
+@obligation(PID, "f", title="[shared with C12.a] fluctuation-dissipation: c1^2*sigma^2 + c2^2 = sigma^2 (sigma^2 = k_B T/m) for every dt, damping time, temperature and mass; the update is v' = c1 v + c2 xi; limits T=0 and padding atoms; coefficients follow the current settings when a driver is re-initialised")
 def ob_f_shared(ob):
     """a reused Langevin driver equals a fresh one only if its thermostat coefficients are recomputed from the current molecule and settings at every initialisation"""
+    from . import C12 as _m  # imported lazily: the harness modules share obligations in both directions
+
     ob.note("this obligation is the one registered as C12.a; it is also decided here because a reused Langevin driver equals a fresh one only if its thermostat coefficients are recomputed from the current molecule and settings at every initialisation")
-    _C12_mod.ob_a(ob)
+    _m.ob_a(ob)
